@@ -18,6 +18,10 @@ CLAIMED = {
         text="C02_encode_is_spec: enc v = spec_enc v for every typed value, where spec_enc is written from wire-format.md with div/mod only; canonical varints (valid and minimal), zig-zag equals the arithmetic definition, usize = u64, unknown lengths refused with nothing emitted, collect_str = str; GenLoops/GenArith tie the theorems to the current source text. Direct oracle: independent Rust encoder from the spec.",
         note=NOTE + "serde's Serialize impls for the values the harness constructs; collect_str's Display is a list of pieces",
         design="4 (C02)"),
+    'C03': dict(
+        text="C03_de_is_spec: on every byte string and every shape the implementation-shaped bit-level decoder equals the arithmetic reference decoder spec_de written from wire-format.md (acceptance, value, remainder, error kind); C03_varint_exact: the reference varint reader accepts exactly the permitted encodings incl. non-minimal ones (iff with the declarative valid_varint); C03_varint_errors classifies truncation vs bad varint; C03_accepts_encodings: every encoding is accepted with the remainder untouched. The declarative relation for composite shapes and the strict-prefix theorem are not yet proved (the harness checks every strict prefix of every generated encoding against the implementation). Direct oracle: independent Rust decoder from the spec, exhaustive short strings.",
+        note=NOTE + "serde visitors (DynVal shape-directed seeds in the harness), from_utf8",
+        design="4 (C03)"),
     'C13': dict(
         text="C13_ops/C13_bytes/C13_length/C13_roundtrip: for every width, sign, byte order and integer a fixint field serialises as exactly size_of raw pushes in the chosen order (never a varint) and decodes back; the extracted model is compared with the real crate on every generated value and the direct oracle (bytes == to_{le,be}_bytes, round trip) runs on the implementation.",
         note=NOTE + "serde's [u8;N] impl (array as tuple) and to_le_bytes/from_le_bytes",
